@@ -32,6 +32,7 @@ type Options struct {
 	StopOnFirst bool
 	Known       []KnownFinding
 	Params      map[string]int
+	NoIfConv    bool
 }
 
 // KnownFinding identifies a recorded genuine defect: harness, a substring of
@@ -120,6 +121,9 @@ type Exec struct {
 	ideal      *idealState
 	ghost      map[string]Value
 	concrete   map[int]int64
+	guard      *Term
+	tables     map[*Value][]string
+	IfConverted int
 	views      map[string]*viewDef
 	viewSeq    int
 	viewDefMemo map[int]*Term
